@@ -146,11 +146,30 @@ def run_factory_order(case, ctx):
             ctx.check("C12.variants-agree", ok, {"factory_order": order, "dim": d, "value": x, "got": [v, s_, r, va], "want": [vol_ref(x, d), surf_ref(x, d), x]}, {"history": True})
 
 
+def perturbed_setter(ctx, x0):
+    """setting the volume of a perturbed 2-D droplet (any number of amplitudes, odd counts included) and reading it back"""
+    from droplets.droplets import PerturbedDroplet2D
+
+    if not (1e-12 <= x0 <= 1e12):
+        return
+    for amps in ([0.2], [0.1, -0.3], [0.0, 0.0, 0.25], [0.3, 0.1, -0.2, 0.05], [0.1, 0.2, 0.1, -0.1, 0.3]):
+        dr = PerturbedDroplet2D(np.array([0.5, -1.0]), 1.3, 0.1, np.array(amps))
+        try:
+            dr.volume = x0
+            got = dr.volume
+            ctx.op(2)
+        except Exception as e:  # noqa
+            got = repr(e)
+        ctx.check("C12.setter", not isinstance(got, str) and eq(got, x0, 1e-13) and np.array_equal(dr.amplitudes, amps), {"class": "PerturbedDroplet2D", "amplitudes": amps, "set": x0, "get": got})
+
+
 def run_case(case, ctx):
     from pde.grids.spherical import volume_from_radius as pde_vr
 
     if "factory_order" in case:
         return run_factory_order(case, ctx)
+    if case["dim"] == 2 and case["form"] == "float":
+        perturbed_setter(ctx, case["value"])
 
     from droplets import DiffuseDroplet, SphericalDroplet
     from droplets.tools import spherical as sp
